@@ -315,6 +315,49 @@ func checkC12(c *Ctx) {
 			}
 			return "ok " + strings.Join(p, ",")
 		}
+		// the bulk accessors must return what plain traversal returns (or fail when it fails)
+		trav := func(kind string) string {
+			it := arrAt().Iter()
+			var parts []string
+			for {
+				t := it.Advance()
+				if t == simdjson.TypeNone {
+					break
+				}
+				switch kind {
+				case "float":
+					v, err := it.Float()
+					if err != nil {
+						return "ERR"
+					}
+					parts = append(parts, fmt.Sprint(math.Float64bits(v)))
+				case "int":
+					v, err := it.Int()
+					if err != nil {
+						return "ERR"
+					}
+					parts = append(parts, fmt.Sprint(v))
+				case "uint":
+					v, err := it.Uint()
+					if err != nil {
+						return "ERR"
+					}
+					parts = append(parts, fmt.Sprint(v))
+				}
+			}
+			return "ok " + strings.Join(parts, ",")
+		}
+		for _, kd := range []struct {
+			kind string
+			got  string
+		}{{"float", safeStr(func() string { return fmtF(arrAt().AsFloat()) })}, {"int", safeStr(func() string { return fmtI(arrAt().AsInteger()) })}, {"uint", safeStr(func() string { return fmtU(arrAt().AsUint64()) })}} {
+			want := safeStr(func() string { return trav(kd.kind) })
+			c.Ev.Count("bulk-vs-traversal", []byte(kd.kind+string(doc)), true)
+			if kd.got != want {
+				c.Violate("bulk", "bulk accessor differs from plain traversal with the typed accessor", "c12-bulk-traversal",
+					map[string]interface{}{"doc_hex": fmt.Sprintf("%x", doc), "doc_text": printable(doc), "query": "As" + kd.kind, "bulk": trunc(kd.got, 300), "traversal": trunc(want, 300)})
+			}
+		}
 		addQ(doc, "asnum "+st+" 2 float", safeStr(func() string { return fmtF(arrAt().AsFloat()) }), "AsFloat")
 		addQ(doc, "asnum "+st+" 2 int", safeStr(func() string { return fmtI(arrAt().AsInteger()) }), "AsInteger")
 		addQ(doc, "asnum "+st+" 2 uint", safeStr(func() string { return fmtU(arrAt().AsUint64()) }), "AsUint64")
